@@ -28,7 +28,19 @@ pub fn generate(kind: &str, seed: u64, run: u64, thorough: bool) -> Scenario {
     let yaml: serde_yaml::Value = serde_yaml::from_str(&text).unwrap_or(serde_yaml::Value::Null);
     let docs = gen::docs_for(&mut dr, &yaml, &knobs, knobs.docs);
     let nseeds = if thorough { 8 } else { 3 };
+    // history: in one scenario out of four another rule - a twin of the rule under test (needle
+    // boundaries moved, case flags toggled, regex escapes in the other case, or an identical copy)
+    // - is loaded, optimised and matched first, on the same thread in the same process. Whatever
+    // the optimiser remembers from it must not reach the rule under test.
+    let mut pr = Rng::stream(seed, run, "PRIME");
+    let strings = if kind != "corpus" && pr.chance(1, 4) {
+        let tk = *pr.pick(&[4usize, 4, 4, 2, 0, 1, 5]);
+        vec![gen::rule_text(&gen::twin_rule(&yaml, tk))]
+    } else {
+        vec![]
+    };
     Scenario {
+        strings,
         property: "C01".into(),
         kind: kind.into(),
         seed,
@@ -318,6 +330,18 @@ pub fn execute(sc: &Scenario) -> Outcome {
     let mut d = Digest::new();
     tau_engine::verif::set_hash_seed(sc.hash_seeds.first().copied().unwrap_or(0));
     tau_engine::verif::set_collapse_missing(false);
+    for prime in &sc.strings {
+        if let Loaded::Ok(t) = load(prime) {
+            stats.inc("primed_with_a_twin_rule_first");
+            for sw in [15u8, 2, 6, 8] {
+                if let Ok(o) = optimise(&t, sw, sc.hash_seeds.first().copied().unwrap_or(0)) {
+                    if let Some(doc) = sc.docs.first() {
+                        let _ = verdict(&o, doc, &sc.render);
+                    }
+                }
+            }
+        }
+    }
     let rule = match load(&sc.rule_text) {
         Loaded::Ok(r) => r,
         Loaded::Rejected(_) => {
